@@ -193,10 +193,9 @@ func Plans(thorough bool) []wprog.Plan {
 		// the whole configuration matrix, one operation, one non-default choice
 		add(wprog.Configs(wprog.AllVersions, tf, tf, pwAll), 1, 1)
 		// representative configurations, longer programs
-		add(rep4, 2, 1)
-		add(wprog.Configs([]pdf.Version{pdf.V1_3, pdf.V1_5}, []bool{true}, []bool{false}, pwNone), 2, 1)
-		add(encRep[1:], 2, 1)
-		add(long, 3, 0)
+		add([]wprog.Config{{V: pdf.V1_4, Seekable: true}, {V: pdf.V1_7, Seekable: false}, {V: pdf.V1_5, Human: true, Seekable: false}}, 2, 1)
+		add([]wprog.Config{encRep[1], encRep[2], encRep[5], encRep[6]}, 2, 1) // one per cipher, seekable alternating
+		add([]wprog.Config{{V: pdf.V1_7, Seekable: true}, {V: pdf.V1_4, Seekable: false}}, 3, 0)
 	} else {
 		add(wprog.Configs(wprog.AllVersions, tf, tf, pwAll), 2, 1)
 		add(rep4, 3, 1)
@@ -220,6 +219,10 @@ func RunPlans(r *ev.Run, plans []wprog.Plan, env *wprog.Env, judge func(res *wpr
 			r.Eval(1)
 			r.Trace(1)
 			r.Count(fmt.Sprintf("programs_ops<=%d_dev<=%d", it.Plan.MaxOps, it.Plan.DevBound), 1)
+			if res.DeferredReject != "" {
+				r.Violation("deferred-put-fails-at-stream-close", fmt.Sprintf("a Put issued while a stream was open was accepted (returned nil), but the Close of that stream then fails with %q (%s)", res.DeferredReject, strings.Join(res.Ops, "; ")), wprog.Case{Cfg: res.Cfg, MaxOps: it.Plan.MaxOps, Choices: append([]int{}, choices...), Ops: res.Ops})
+				return
+			}
 			if !res.Accepted {
 				if res.Panic != nil {
 					r.Violation("writer-panic", fmt.Sprintf("the Writer panics: %v (%s)", res.Panic, strings.Join(res.Ops, "; ")), wprog.Case{Cfg: res.Cfg, MaxOps: it.Plan.MaxOps, Choices: append([]int{}, choices...), Ops: res.Ops})
